@@ -311,7 +311,7 @@ def run_case(seed, i, tier):
             cr.violations.append(Violation(cls, "fault=%s argv=%s: %s" % (fdesc, scn.argv, detail), rp))
         if vs:
             break
-    if i % 100 == 0:
+    if True:
         cr.sample = {"argv": scn.argv, "fault": fdesc, "files": [(f.path, len(f.data)) for f in scn.files]}
     return cr
 
